@@ -84,17 +84,34 @@ func (r *heapRunner) Do(op []string) string {
 			ints(append([]int{}, nh.GetValues()...)) + " " + itoa(r.h.Size()) + " " + itoa(h2.Size())
 		r.h = nh
 		return res
-	case "fromslice":
+	case "fromslice", "fromslicespare":
 		data := parseInts(op[1])
+		if op[0] == "fromslicespare" {
+			data = withSpare(data)
+		}
 		r.comp = op[2]
 		r.h = heap.FromSlice(data, heapComp(op[2]))
 		return ints(append([]int{}, r.h.GetValues()...))
-	case "sort":
+	case "sort", "sortspare":
 		data := parseInts(op[1])
+		if op[0] == "sortspare" {
+			data = withSpare(data)
+		}
 		out := heap.Sort(data, heapComp(op[2]))
 		return ints(append([]int{}, out...))
 	}
 	panic("harness: bad op " + op[0])
+}
+
+// withSpare returns the same elements in a larger backing array: spare capacity behind the length
+// (an append-grown slice, a prefix of a buffer), filled with values that are not elements.
+func withSpare(data []int) []int {
+	buf := make([]int, len(data)+1+len(data)%3)
+	for i := range buf {
+		buf[i] = -424242 - i
+	}
+	copy(buf, data)
+	return buf[:len(data)]
 }
 
 func init() {
@@ -220,6 +237,11 @@ func genC03(g *Gen) {
 				ops = append(ops, "pop")
 			}
 			ops = append(ops, "sort "+ints(s)+" "+comp)
+			// the same calls on an argument with spare capacity behind its length
+			ops = append(ops, "sortspare "+ints(s)+" "+comp, "fromslicespare "+ints(s)+" "+comp, "size", "peek", "push 2", "push 1")
+			for i := 0; i <= len(s)+2; i++ {
+				ops = append(ops, "pop")
+			}
 			g.Emit("heap", []string{comp}, ops)
 		})
 	}
@@ -249,7 +271,7 @@ func genC03(g *Gen) {
 		var ops []string
 		length := r.Range(5, 120)
 		if r.Intn(4) == 0 {
-			ops = append(ops, "fromslice "+ints(vals(r.Intn(20)))+" "+comp)
+			ops = append(ops, []string{"fromslice ", "fromslicespare "}[r.Intn(2)]+ints(vals(r.Intn(20)))+" "+comp)
 		}
 		for j := 0; j < length; j++ {
 			p := r.Intn(100)
@@ -276,7 +298,7 @@ func genC03(g *Gen) {
 				ops = append(ops, "pushn "+ints(vals(r.Intn(5))))
 			default:
 				c := comp
-				ops = append(ops, "sort "+ints(vals(r.Intn(12)))+" "+c)
+				ops = append(ops, []string{"sort ", "sortspare "}[r.Intn(2)]+ints(vals(r.Intn(12)))+" "+c)
 			}
 			if r.Intn(2) == 0 {
 				ops = append(ops, "peek", "size")
